@@ -235,4 +235,50 @@ theorem execBurnFrom_inv {s s' : State} {blk : Block} {snd : Addr} {o : AddrArg}
   rw [hs] at hle
   exact ⟨ho, s1, b1, hd, h1, hle, by rw [hs], rfl⟩
 
+/-! ## Sum of the allowances granted by one owner -/
+
+/-- Σ of the amounts of all `ALLOWANCES` entries whose owner is `a`. -/
+def ownerSum (m : AMap (Addr × Addr) Allowance) (a : Addr) : Nat :=
+  match m with
+  | [] => 0
+  | (k, v) :: rest => (if k.1 = a then v.amount else 0) + ownerSum rest a
+
+/-- Writing the entry `(o, sp)` changes the owner's sum by exactly the difference at that entry (and only
+when `o = a`). -/
+theorem ownerSum_set (m : AMap (Addr × Addr) Allowance) (o sp : Addr) (v : Allowance) (a : Addr) :
+    ownerSum (m.set (o, sp) v) a + (if o = a then ((m.get? (o, sp)).getD Allowance.default).amount else 0)
+      = ownerSum m a + (if o = a then v.amount else 0) := by
+  induction m with
+  | nil => simp [AMap.set, ownerSum, AMap.get?, Allowance.default]
+  | cons p rest ih =>
+    obtain ⟨k, v'⟩ := p
+    by_cases h : k = (o, sp)
+    · subst h
+      simp only [AMap.set, AMap.get?, if_true, ownerSum, Option.getD_some]
+      split <;> omega
+    · simp only [AMap.set, AMap.get?, if_neg h, ownerSum]
+      omega
+
+/-- Removing an entry never raises the owner's sum. -/
+theorem ownerSum_erase_le (m : AMap (Addr × Addr) Allowance) (k : Addr × Addr) (a : Addr) :
+    ownerSum (m.erase k) a ≤ ownerSum m a := by
+  induction m with
+  | nil => simp [AMap.erase, ownerSum]
+  | cons p rest ih =>
+    obtain ⟨k', v'⟩ := p
+    by_cases h : k' = k
+    · simp only [AMap.erase, if_pos h, ownerSum]; omega
+    · simp only [AMap.erase, if_neg h, ownerSum]; omega
+
+/-- Every single allowance of the owner is part of the owner's sum. -/
+theorem get?_le_ownerSum (m : AMap (Addr × Addr) Allowance) (a sp : Addr) :
+    ((m.get? (a, sp)).getD Allowance.default).amount ≤ ownerSum m a := by
+  induction m with
+  | nil => simp [AMap.get?, Allowance.default]
+  | cons p rest ih =>
+    obtain ⟨k, v'⟩ := p
+    by_cases h : k = (a, sp)
+    · subst h; simp [AMap.get?, ownerSum]
+    · simp only [AMap.get?, if_neg h, ownerSum]; omega
+
 end CwPlus.Cw20
